@@ -27,6 +27,7 @@ import (
 	"gorm.io/gorm"
 	"gorm.io/gorm/logger"
 	"gorm.io/gorm/schema"
+	"gorm.io/gorm/verifshim"
 
 	"verif/drivers/recsqlite"
 	"verif/h"
@@ -78,6 +79,29 @@ type Shelter struct {
 	Pets []Pet
 }
 
+// Owner is a soft-delete model with a relation of its own; Doc joins it. A Doc
+// query that obtains Owner's schema while Owner is still being parsed must not
+// lose the soft-delete filter of the join.
+type Owner struct {
+	ID        uint
+	Name      string
+	DeletedAt gorm.DeletedAt
+	Parts     []Part
+}
+
+type Part struct {
+	ID      uint
+	OwnerID uint
+	Name    string
+}
+
+type Doc struct {
+	ID      uint
+	Title   string
+	OwnerID uint
+	Owner   Owner
+}
+
 type Language struct {
 	Code string `gorm:"primaryKey"`
 	Name string
@@ -106,6 +130,9 @@ CREATE TABLE users (id integer primary key, name text, age integer, company_id i
 CREATE TABLE companies (id integer primary key, name text);
 CREATE TABLE pets (id integer primary key, user_id integer, shelter_id integer, name text);
 CREATE TABLE shelters (id integer primary key, name text);
+CREATE TABLE owners (id integer primary key, name text, deleted_at datetime);
+CREATE TABLE parts (id integer primary key, owner_id integer, name text);
+CREATE TABLE docs (id integer primary key, title text, owner_id integer);
 CREATE TABLE languages (code text primary key, name text);
 CREATE TABLE user_languages (user_id integer, language_code text, primary key (user_id, language_code));
 CREATE TABLE toys (id integer primary key, owner_id integer, owner_type text, name text);
@@ -113,7 +140,7 @@ CREATE TABLE gadgets (id integer primary key, kind text, tags text);
 CREATE TABLE plains (id integer primary key, a integer);
 `
 
-var allTables = []string{"users", "companies", "shelters", "pets", "languages", "user_languages", "toys", "gadgets", "plains"}
+var allTables = []string{"users", "companies", "shelters", "owners", "parts", "docs", "pets", "languages", "user_languages", "toys", "gadgets", "plains"}
 
 func seedSQL() []string {
 	var out []string
@@ -123,6 +150,11 @@ func seedSQL() []string {
 			fmt.Sprintf("INSERT INTO companies (id,name) VALUES (%d,'co%d')", b, t),
 			fmt.Sprintf("INSERT INTO users (id,name,age,company_id,audit_created_by,audit_note) VALUES (%d,'u%d',%d,%d,'seed','n')", b, t, 20+t, b),
 			fmt.Sprintf("INSERT INTO shelters (id,name) VALUES (%d,'sh%d')", b, t),
+			fmt.Sprintf("INSERT INTO owners (id,name,deleted_at) VALUES (%d,'o%d',NULL)", b, t),
+			fmt.Sprintf("INSERT INTO owners (id,name,deleted_at) VALUES (%d,'o%dx','2019-01-01 00:00:00+00:00')", b+1, t),
+			fmt.Sprintf("INSERT INTO parts (id,owner_id,name) VALUES (%d,%d,'pt%d')", b, b, t),
+			fmt.Sprintf("INSERT INTO docs (id,title,owner_id) VALUES (%d,'d%da',%d)", b, t, b),
+			fmt.Sprintf("INSERT INTO docs (id,title,owner_id) VALUES (%d,'d%db',%d)", b+1, t, b+1),
 			fmt.Sprintf("INSERT INTO pets (id,user_id,shelter_id,name) VALUES (%d,%d,%d,'p%da')", b, b, b, t),
 			fmt.Sprintf("INSERT INTO pets (id,user_id,shelter_id,name) VALUES (%d,%d,%d,'p%db')", b+1, b, b, t),
 			fmt.Sprintf("INSERT INTO languages (code,name) VALUES ('l%d','lang%d')", t, t),
@@ -202,6 +234,14 @@ var ops = map[byte]opFn{
 	'H': func(db *gorm.DB, tid int) string { // second owner of the Pet schema
 		var ss []Shelter
 		return res(db.Preload("Pets").Where("id = ?", 100*(tid+1)).Find(&ss), ss)
+	},
+	'O': func(db *gorm.DB, tid int) string { // soft-delete model with a relation of its own
+		var os_ []Owner
+		return res(db.Preload("Parts").Where("id IN ?", []int{100 * (tid + 1), 100*(tid+1) + 1}).Order("id").Find(&os_), os_)
+	},
+	'Q': func(db *gorm.DB, tid int) string { // join through the soft-delete model
+		var ds []Doc
+		return res(db.Joins("Owner").Where("docs.id IN ?", []int{100 * (tid + 1), 100*(tid+1) + 1}).Order("docs.id").Find(&ds), ds)
 	},
 	'G': func(db *gorm.DB, tid int) string { // unrelated model with a serializer field
 		var gs []Gadget
@@ -289,7 +329,7 @@ func openEnv(p Program) (*gorm.DB, *h.Env) {
 	return db, env
 }
 
-var allModels = []interface{}{&User{}, &Company{}, &Shelter{}, &Pet{}, &Language{}, &Toy{}, &Gadget{}, &Plain{}}
+var allModels = []interface{}{&User{}, &Company{}, &Shelter{}, &Owner{}, &Part{}, &Doc{}, &Pet{}, &Language{}, &Toy{}, &Gadget{}, &Plain{}}
 
 // dumpSchemas renders what later operations can observe of the cached schemas.
 func dumpSchemas(db *gorm.DB) string {
@@ -334,6 +374,7 @@ func dumpSchemas(db *gorm.DB) string {
 		for _, n := range names {
 			fmt.Fprintf(&sb, "  R %s\n", n)
 		}
+		fmt.Fprintf(&sb, "  clauses query=%d update=%d delete=%d create=%d\n", len(s.QueryClauses), len(s.UpdateClauses), len(s.DeleteClauses), len(s.CreateClauses))
 		fmt.Fprintf(&sb, "  hasOne=%d hasMany=%d belongsTo=%d m2m=%d\n", len(s.Relationships.HasOne), len(s.Relationships.HasMany), len(s.Relationships.BelongsTo), len(s.Relationships.Many2Many))
 	}
 	return sb.String()
@@ -463,6 +504,51 @@ func judge(p Program, o, ref *outcome) []verdict {
 	return vs
 }
 
+// scheduleTags: the one known logical finding of the unchanged tree is keyed by
+// the schedule. A `Joins("Owner")` query (op Q) loses the relation's soft-delete
+// filter when it obtains Owner's schema through getOrParse after another thread
+// published it (LoadOrStore) but before that thread has run its field loop —
+// i.e. the publisher has executed at most one further scheduling step when the
+// Q thread finishes. If the publisher is further along (e.g. inside relation
+// parsing) the filter must be there: such executions are NOT tagged.
+func scheduleTags(p Program, v verdict, o *outcome) []string {
+	if v.kind != "result-differs-from-serial-run" || !strings.Contains(v.msg, "(Q)") || o == nil || o.sch == nil {
+		return nil
+	}
+	var qThread int
+	if _, err := fmt.Sscanf(v.msg, "thread %d op", &qThread); err != nil {
+		return nil
+	}
+	ownerKey := verifshim.KeyID(reflect.TypeOf(Owner{}))
+	log := o.sch.Log
+	pub, pubThread := -1, -1
+	for i, st := range log {
+		if st.Op == sched.OpMapLoadOrStore && st.Arg == ownerKey {
+			pub, pubThread = i, st.Thread
+			break
+		}
+	}
+	if pub < 0 || pubThread == qThread {
+		return nil
+	}
+	lastQ := -1
+	for i, st := range log {
+		if st.Thread == qThread {
+			lastQ = i
+		}
+	}
+	progress := 0
+	for i := pub + 1; i < len(log) && i < lastQ; i++ {
+		if log[i].Thread == pubThread {
+			progress++
+		}
+	}
+	if progress <= 1 {
+		return []string{"cold-softdelete-join-reads-owner-schema-before-its-field-loop"}
+	}
+	return nil
+}
+
 func firstLines(s string, n int) string {
 	ls := strings.Split(s, "\n")
 	if len(ls) > n {
@@ -517,7 +603,7 @@ func programs(tier string, race bool) []Program {
 			ps = append(ps, p)
 		}
 	}
-	single := []string{"J", "P", "C", "N", "K", "U", "D", "A", "G", "L", "F", "H"}
+	single := []string{"J", "P", "C", "N", "K", "U", "D", "A", "G", "L", "F", "H", "O", "Q"}
 	b2, b3 := 2, 1
 	if tier == "thorough" {
 		b2, b3 = 3, 2
@@ -549,7 +635,7 @@ func programs(tier string, race bool) []Program {
 		add(Program{Threads: pr, Mode: "real", Bound: b3})
 	}
 	// three threads
-	three := [][]string{{"H", "P", "N"}, {"J", "C", "P"}, {"P", "N", "K"}, {"J", "J", "J"}, {"C", "F", "A"}, {"K", "C", "N"}, {"G", "L", "J"}, {"P", "P", "C"}, {"U", "D", "P"}}
+	three := [][]string{{"O", "Q", "Q"}, {"H", "P", "N"}, {"J", "C", "P"}, {"P", "N", "K"}, {"J", "J", "J"}, {"C", "F", "A"}, {"K", "C", "N"}, {"G", "L", "J"}, {"P", "P", "C"}, {"U", "D", "P"}}
 	for _, t := range three {
 		add(Program{Threads: t, Mode: "dry", Bound: b3})
 		add(Program{Threads: t, Mode: "real", Bound: b3})
@@ -737,7 +823,18 @@ func child(run *mc.Run, args mc.Args) {
 							Replay{Program: p, Choices: x.ChoiceInts(), Trace: x.Trace(), Race: rep.Text})
 					}
 				}
-				for _, v := range judge(p, o, ref) {
+				vs := judge(p, o, ref)
+				if len(vs) > 0 {
+					// tags are computed from the schedule (point log) of a replay of this execution
+					o2 := runOne(p, mc.NewExec(x.ChoiceInts()), true, false)
+					if rl != nil {
+						rl.Drain()
+					}
+					for i := range vs {
+						vs[i].tags = scheduleTags(p, vs[i], o2)
+					}
+				}
+				for _, v := range vs {
 					run.Violation(v.tags, v.kind+"\n"+p.String()+"\n"+v.msg, Replay{Program: p, Choices: x.ChoiceInts(), Trace: x.Trace()})
 				}
 			}
